@@ -438,3 +438,27 @@ fn c43_from_rounds_extra_fraction_digit() {
     assert!(r.is_err(), "C43: a Decimal with more fraction digits than `decimals` is rounded instead of rejected");
     std::mem::forget(r);
 }
+
+//@ prop=C43 tier=experimental kind=hold
+//@ enc=gmsol_sdk::utils::fixed::unsigned_fixed_to_decimal (convert_by_change_the_scale), decimal_to_value, rescale_to_mantissa
+//@ bound=lossy region: u128 num > 2^96-1, decimals 0..=28: what the round trip still guarantees there: Ok(v) with v <= num and num - v < 10^(ilog10(num) - 27) (only the digits below the 28 leading ones are lost); unwind 31
+//@ stubs=alloc::fmt::format returns an empty String
+//@ timeout=1800
+#[kani::proof]
+#[kani::stub(alloc::fmt::format, fmt_format)]
+#[kani::unwind(31)]
+fn c43_lossy_region_error_bound() {
+    let n: u128 = kani::any();
+    kani::assume(n > MAX_REPR);
+    let d: u8 = kani::any();
+    kani::assume(d <= 28);
+    if let Some(dec) = unsigned_fixed_to_decimal(n, d) {
+        let cut = n.ilog10() - 27;
+        let back = decimal_to_value(dec, d);
+        match &back {
+            Ok(v) => assert!(*v <= n && n - *v < POW10[cut as usize] as u128, "C43: more than the trailing digits lost"),
+            Err(_) => assert!(false, "C43: a value produced by the to-direction is rejected by the from-direction"),
+        }
+        std::mem::forget(back);
+    }
+}
